@@ -28,20 +28,23 @@ Environment events and the ghost sets that state what the environment owes:
 `_notify_sessions(h, xs)` = `notify h xs`; it is cut at `await self._refresh_hsub_results(height)`
 (between `_notify_count += 1` and the cache invalidation): the header read (`DB.raw_header` in a
 worker thread) is a record in `hreads`, performed by `hdrDo` (it sees the chain of *then*) and
-delivered by `hdrFinish` (F16: an IndexError is retried with the lowered height, or raised when the
-DB is back at that height — the notification is then lost: ghost set `lost`).
+delivered by `hdrFinish` (F16: an IndexError is retried at `min(height, db height)`; the pinned
+variant raised when the DB was back at that height — the notification was then lost: ghost `lost`).
 A history read (`DB.limited_history` in a worker thread) is cut in three as before (`tasks`).
 
 Ghost fields (not in the code, never read by it): `carrier`, `flipped`, `lost`, `suppressed`,
 `seen`, `tipDone`, and the `flips` component of a header read.
 
-Flags select pinned / proposed behaviour:
+Flags: the default `{}` is the current code; the others select pinned earlier behaviour:
   `checkCount = false`  accept every read (F5);
   `batch = true`        `_notify_inner` sends all statuses after computing all of them (F15);
   `recheck = false`     no second loop over `mempool_statuses` (the shape of seeded change C07-1);
-  `cmpLive = true`      PROPOSED FIX: the second loop compares the new status with the value stored
-                        in `mempool_statuses` at the moment it is replaced, not with the copy taken
-                        before the loop (which can be out of date after a suspension).
+  `cmpLive = false`     the second loop compares the new status with the COPY of `mempool_statuses`
+                        taken before the loop (stale after a suspension) instead of the value that
+                        is in `mempool_statuses` at the moment it is replaced (fixed in ee7f7d3);
+  `raiseOnRace = true`  `_refresh_hsub_results` raises when the header read failed (the DB was lowered
+                        under it) and the DB is back at that height when the error arrives, instead
+                        of reading again: the notification is lost (ghost `lost`).
 No imports: linked into `evdrv`.
 -/
 namespace EV.System
@@ -50,7 +53,8 @@ structure Flags where
   checkCount : Bool := true
   batch : Bool := false
   recheck : Bool := true
-  cmpLive : Bool := false
+  cmpLive : Bool := true
+  raiseOnRace : Bool := false
 deriving Repr, DecidableEq, Inhabited
 
 /-- (version of the confirmed history, mempool part) -/
@@ -357,10 +361,11 @@ def step (f : Flags) (st : St) : Ev → St
           finishNotify f { st with hreads := st.hreads.eraseIdx j, hsub := (r.h, d),
                                    notifiedHeight := r.h } r.xs true
         | some none =>
-          if r.h ≤ dbHeight st then
-            -- `if height <= self.db.state.height: raise`: the notification is lost
+          if f.raiseOnRace && decide (r.h ≤ dbHeight st) then
+            -- pinned: `if height <= self.db.state.height: raise`: the notification is lost
             { st with hreads := st.hreads.eraseIdx j, lost := st.lost ++ r.xs ++ r.flips }
           else
+            -- IndexError: the DB was lowered whilst the header was read; clamp again and re-read
             { st with hreads := st.hreads.eraseIdx j ++
                 [{ h := min r.h (dbHeight st), xs := r.xs, flips := r.flips }] }
 
